@@ -5,7 +5,10 @@ import itertools
 RULE = ('every element string after an initial MoveTo over a 3-point alphabet with repetition (13 symbols per position; '
         'total length <= 5 quick / <= 6 thorough) plus random strings up to length 40 with generic doubles; for each: '
         'segments(), get_seg at every index, from_path_segments(segments()), reverse_subpaths, reverse twice - implementation '
-        'compared bit-for-bit with the Lean model, and the property relations checked on the implementation output itself. '
+        'compared bit-for-bit with the Lean model, and the property relations checked on the implementation output itself; builder histories '
+        '(stratum mutators: 1-30 random new/with_capacity/from_vec/push/pop/truncate/extend/move_to/line_to/quad_to/curve_to/close_path/apply_affine steps on '
+        'small dyadic coordinates, ~12% not avoiding the debug assertions, with elements/iter/len/is_empty/segments/get_seg queries in between and at the '
+        'end): implementation == Lean state-machine model (Float and Rat) exactly, incl. which assertion panics, and == the plain list semantics. '
         'non-trivial = distinct element string with at least one drawing element')
 KERNEL_DEPS = [r'PathSeg\.(start|end|reverse|as_path_el)']
 UNPROVED = []
@@ -145,3 +148,199 @@ def generate(rng, tier):
         els = els_line(syms, pts)
         yield path_views(els, 'random-long')
         yield path_roundtrips(els, 'random-long')
+    # builder histories (C07M) – kept last so that the cases above are unchanged for a given seed
+    yield from generate_mutators(rng, tier)
+
+
+# ---------------------------------------------------------------- BezPath mutators as a state machine (tag C07M)
+
+ARITY = {'M': 1, 'L': 1, 'Q': 2, 'C': 3, 'Z': 0}
+PANIC_FIRST = 'PANIC(BezPath must begin with MoveTo)'
+PANIC_EMPTY = 'PANIC(uninitialized subpath (missing MoveTo))'
+PANIC_SEGS = "PANIC(Can't start a segment on a ClosePath)"
+
+
+def norm_panic(s):
+    """the harness appends ` @ file:line` to the panic message"""
+    import re
+    return re.sub(r' @ [^()]*\)$', ')', s) if s.startswith('PANIC(') else s
+
+
+def el_str(el):
+    return el[0] + ''.join(' ' + H(*p) for p in el[1:])
+
+
+def mut_script_str(ops):
+    """ops: list of tuples – ('mv', p) ('ln', p) ('qd', p1, p2) ('cv', p1, p2, p3) ('cl',) ('push', el) ('pop',) ('trunc', n) ('ext', els) ('vec', els)
+    ('new',) ('cap', n) ('aff', coeffs) and the queries ('els',) ('iter',) ('segs',) ('gseg', i) ('empty',) ('len',)"""
+    out = []
+    for op in ops:
+        k = op[0]
+        if k in ('mv', 'ln', 'qd', 'cv'):
+            out.append(k + ''.join(' ' + H(*p) for p in op[1:]))
+        elif k == 'push':
+            out.append('push ' + el_str(op[1]))
+        elif k in ('ext', 'vec'):
+            out.append(k + ''.join(' ' + el_str(e) for e in op[1]) + ' ;')
+        elif k in ('trunc', 'cap', 'gseg'):
+            out.append(f'{k} {op[1]}')
+        elif k == 'aff':
+            out.append('aff ' + H(*op[1]))
+        else:
+            out.append(k)
+    return ' '.join(out)
+
+
+def mut_reference(ops):
+    """the obvious list semantics of a history (independent of the Lean model): the expected outputs of pop / els / iter / len / empty (None where
+    this reference does not predict: segs, gseg) or the expected panic line"""
+    st = []
+    outs = []
+    first_ok = lambda: bool(st) and st[0][0] == 'M'
+    for op in ops:
+        k = op[0]
+        if k == 'new' or k == 'cap':
+            st = []
+        elif k == 'vec':
+            if op[1] and op[1][0][0] != 'M':
+                return PANIC_FIRST
+            st = list(op[1])
+        elif k in ('push', 'mv', 'ln', 'qd', 'cv', 'cl'):
+            if k in ('ln', 'qd', 'cv', 'cl') and not st:
+                return PANIC_EMPTY
+            el = op[1] if k == 'push' else ({'mv': 'M', 'ln': 'L', 'qd': 'Q', 'cv': 'C', 'cl': 'Z'}[k],) + tuple(op[1:])
+            st.append(el)
+            if not first_ok():
+                return PANIC_FIRST
+        elif k == 'pop':
+            outs.append('pop ' + (el_str(st.pop()) if st else 'none'))
+        elif k == 'trunc':
+            st = st[:op[1]]
+        elif k == 'ext':
+            st = st + list(op[1])
+        elif k == 'aff':
+            c = op[1]
+            st = [(e[0],) + tuple((c[0] * x + c[2] * y + c[4], c[1] * x + c[3] * y + c[5]) for x, y in e[1:]) for e in st]
+        elif k in ('els', 'iter'):
+            outs.append((k + ' ' + ' '.join(el_str(e) for e in st)))
+        elif k == 'len':
+            outs.append(f'len {len(st)}')
+        elif k == 'empty':
+            outs.append('empty ' + ('1' if all(e[0] in 'MZ' for e in st) else '0'))
+        elif k == 'segs':
+            if st and st[0][0] == 'Z':
+                return PANIC_SEGS
+            outs.append(None)
+        elif k == 'gseg':
+            outs.append(None)
+    return outs
+
+
+@maker(MAKERS)
+def path_mut(ops, engine):
+    """a builder history: implementation == model (engine 'F' or 'R'), exactly; and == the list semantics where the reference predicts"""
+    def tup(x):
+        return tuple(tup(y) for y in x) if isinstance(x, (list, tuple)) else x
+    ops = [tup(op) for op in ops]
+    line = ('path.mut ' + mut_script_str(ops)).rstrip()
+    want = mut_reference(ops)
+
+    def judge(o):
+        i, m = norm_panic(o['I'][0]), o[engine][0]
+        if i in ('UNKNOWN-OP', 'BAD-ARGS', 'BAD-ARGS trailing', 'DIED', 'EMPTY') or m in ('UNKNOWN-OP', 'BAD-ARGS', 'BAD-ARGS trailing', 'DIED', 'EMPTY'):
+            return f'engine error impl={i!r} model={m!r}'
+        if i.split() != m.split():
+            return f'impl != model@{engine} on a builder history: impl={i[:240]} model={m[:240]}'
+        if isinstance(want, str):
+            return None if i == want else f'list semantics expects {want}, impl gives {i[:200]}'
+        if i.startswith('PANIC'):
+            return f'unexpected panic {i}'
+        got = [x.strip() for x in i.split(' ; ')] if (i or want) else []
+        if len(got) != len(want):
+            return f'{len(want)} outputs expected, got {len(got)}: {i[:200]}'
+        for g, w in zip(got, want):
+            if w is not None and g.split() != w.split():
+                return f'list semantics expects `{w[:160]}`, impl gives `{g[:160]}`'
+        return None
+    return Case(line, 'I' + engine, judge, 'mutators', 'corr-' + engine)
+
+
+def rnd_history(rng):
+    d = lambda: rng.randint(-8, 8) / 4.0
+    P = lambda: (d(), d())
+    mk = lambda k: (k,) + tuple(P() for _ in range(ARITY[k]))
+    sloppy = rng.random() < 0.12         # histories that do not care about the assertions
+    n = rng.randint(1, 30)
+    ops = []
+    length = 0                           # length of the simulated state (only used to steer the choice)
+    for _ in range(n):
+        if length == 0 and not sloppy and rng.random() < 0.97:
+            k = rng.choice(['mv', 'mv', 'mv', 'vecM', 'pushM'])
+        else:
+            k = rng.choice(['mv', 'ln', 'ln', 'ln', 'qd', 'cv', 'cl', 'cl', 'push', 'push', 'pop', 'pop', 'trunc', 'ext', 'ext', 'aff', 'new', 'cap', 'vec',
+                            'els', 'len', 'empty', 'segs', 'gseg'])
+        if k == 'mv':
+            ops.append(('mv', P())); length += 1
+        elif k == 'ln':
+            ops.append(('ln', P())); length += 1
+        elif k == 'qd':
+            ops.append(('qd', P(), P())); length += 1
+        elif k == 'cv':
+            ops.append(('cv', P(), P(), P())); length += 1
+        elif k == 'cl':
+            ops.append(('cl',)); length += 1
+        elif k == 'pushM':
+            ops.append(('push', mk('M'))); length += 1
+        elif k == 'push':
+            ops.append(('push', mk(rng.choice('MLQCZ')))); length += 1
+        elif k == 'pop':
+            ops.append(('pop',)); length = max(0, length - 1)
+        elif k == 'trunc':
+            t = rng.choice([0, 1, length, length + 1, length + 5, rng.randint(0, length + 1), max(0, length - 1)])
+            ops.append(('trunc', t)); length = min(length, t)
+        elif k == 'ext':
+            first = 'M' if (length == 0 and not sloppy) else rng.choice('MLQCZ')
+            els = [mk(first)] + [mk(rng.choice('MLQCZ')) for _ in range(rng.randint(0, 3))] if rng.random() < 0.9 else []
+            ops.append(('ext', els)); length += len(els)
+        elif k in ('vec', 'vecM'):
+            first = 'M' if (k == 'vecM' or not sloppy or rng.random() < 0.5) else rng.choice('LQCZ')
+            els = [mk(first)] + [mk(rng.choice('MLQCZ')) for _ in range(rng.randint(0, 4))] if rng.random() < 0.9 else []
+            ops.append(('vec', els)); length = len(els)
+        elif k == 'new':
+            ops.append(('new',)); length = 0
+        elif k == 'cap':
+            ops.append(('cap', rng.randint(0, 64))); length = 0
+        elif k == 'aff':
+            ops.append(('aff', tuple(rng.choice([0.0, 1.0, -1.0, 2.0, 0.5, -0.5, 0.25]) for _ in range(4)) + (d(), d())))
+        elif k == 'gseg':
+            ops.append(('gseg', rng.randint(0, length + 1)))
+        else:
+            ops.append((k,))
+    # the final queries
+    ops += [('els',), ('iter',), ('len',), ('empty',), ('segs',)] + [('gseg', i) for i in range(0, length + 2)]
+    return ops
+
+
+MUT_FIXED = [
+    [('els',), ('pop',), ('segs',), ('empty',), ('len',), ('gseg', 0)],
+    [('ln', (1.0, 2.0))], [('qd', (1.0, 2.0), (3.0, 4.0))], [('cv', (1.0, 2.0), (3.0, 4.0), (5.0, 6.0))], [('cl',)],
+    [('push', ('L', (1.0, 2.0)))], [('push', ('Z',))], [('vec', [('L', (1.0, 2.0))])], [('vec', [])],
+    [('ext', [('L', (1.0, 2.0))]), ('els',), ('segs',), ('mv', (0.0, 0.0))],          # extend does not assert; the next push does
+    [('ext', [('L', (1.0, 2.0))]), ('ln', (0.0, 0.0))], [('ext', [('Z',)]), ('els',), ('segs',)],
+    [('mv', (1.0, 2.0)), ('pop',), ('ln', (1.0, 1.0))],                                 # emptied by pop: line_to asserts again
+    [('mv', (1.0, 2.0)), ('ln', (3.0, 4.0)), ('trunc', 0), ('cl',)],
+    [('mv', (1.0, 2.0)), ('ln', (3.0, 4.0)), ('push', ('Z',)), ('pop',), ('els',), ('trunc', 2), ('els',), ('ext', [('L', (5.0, 6.0)), ('Z',)]), ('trunc', 2), ('els',), ('segs',)],
+    [('mv', (1.0, 2.0)), ('mv', (1.0, 2.0)), ('cl',), ('cl',), ('ln', (0.0, 0.0)), ('empty',), ('segs',), ('gseg', 1), ('gseg', 2), ('gseg', 3), ('gseg', 4), ('gseg', 5)],
+    [('vec', [('M', (0.0, 0.0)), ('Q', (1.0, 1.0), (2.0, 0.0))]), ('aff', (2.0, 0.0, 0.0, -1.0, 0.5, 0.25)), ('els',), ('segs',)],
+    [('cap', 10), ('mv', (0.0, -0.0)), ('els',), ('new',), ('els',), ('cl',)],
+]
+
+
+def generate_mutators(rng, tier):
+    for ops in MUT_FIXED:
+        yield path_mut(ops, 'F')
+        yield path_mut(ops, 'R')
+    for _ in range(600 if tier == 'quick' else 20000):
+        ops = rnd_history(rng)
+        yield path_mut(ops, 'F')
+        yield path_mut(ops, 'R')
